@@ -298,7 +298,7 @@ func (fg *FuncGen) assertOld(name, srt string) {
 func (fg *FuncGen) collectDebugRefs() {
 	for _, b := range fg.fn.Blocks {
 		for _, in := range b.Instrs {
-			if d, ok := in.(*ssa.DebugRef); ok && !d.IsAddr {
+			if d, ok := in.(*ssa.DebugRef); ok {
 				if id, ok := d.Expr.(*ast.Ident); ok {
 					fg.debugRefs[id.Name] = append(fg.debugRefs[id.Name], d)
 				}
@@ -604,14 +604,14 @@ func (fg *FuncGen) floatConst(exact, srt string) string {
 	name := "fc_" + strings.ToLower(srt) + "_" + smtIdent(exact)
 	if _, ok := fg.g.globals[name]; !ok {
 		fg.g.Global(name, srt, false)
-		if srt == "F64" {
+		if srt == "F64" || srt == "F32" {
 			// integral constants are related to their integer value
 			if !strings.Contains(exact, "/") {
 				v := exact
 				if strings.HasPrefix(v, "-") {
 					v = "(- " + v[1:] + ")"
 				}
-				fg.g.extraDecls = append(fg.g.extraDecls, fmt.Sprintf("(assert (= %s (f64.ofint %s)))", name, v))
+				fg.g.extraDecls = append(fg.g.extraDecls, fmt.Sprintf("(assert (= %s (%s.ofint %s)))", name, strings.ToLower(srt), v))
 			}
 		}
 	}
